@@ -24,7 +24,7 @@ extern "C" int __lsan_do_recoverable_leak_check();
 using namespace vh;
 
 namespace {
-struct Tally { long long refused = 0, mirror_requests = 0, unit_names_read = 0, exact_fills = 0, threshold = 0, factory_calls = 0, strings = 0, string_bytes = 0, pools = 0, printed_bytes = 0, units = 0, regions = 0, steps = 0; };
+struct Tally { long long decomposed_parts = 0, extension_sets = 0, refused = 0, mirror_requests = 0, unit_names_read = 0, exact_fills = 0, threshold = 0, factory_calls = 0, strings = 0, string_bytes = 0, pools = 0, printed_bytes = 0, units = 0, regions = 0, steps = 0; };
 
 // the workload of one Lexicon life; everything it allocates dies with this scope
 // the Lexicon of every ordinary life is built in this one storage slot (the address a constructor may have remembered)
@@ -147,6 +147,26 @@ void one_life(std::uint64_t seed, int flavour, Tally& T)
       refused([&] { (void)&lex.make_class(*unit.global_region())->name(); });
       refused([&] { (void)&unit.global_scope()->make_var(lex.get_identifier(u8"no_initializer"), L.int_type())->initializer().get(); });
       refused([&] { auto* cls = lex.make_class(*unit.global_region()); (void)&cls->declare_base(*cls)->initializer().get(); });
+   }
+   {  // specifier and qualifier sets carrying coordinates outside the Lexicon's own basis (the interface keeps both spaces open
+      // for extensions: a vendor's qualifier, a front end's private specifier bit): decomposed directly, and decomposed by the
+      // printer for a declaration and a qualified type that carry them.  Every single bit, and random masks.
+      long long parts = 0;
+      for (int b = 0; b < 64; ++b) {
+         parts += (long long)L.decompose(Specifiers(std::uintptr_t(1) << b)).size() + (long long)L.decompose(Qualifiers(std::uintptr_t(1) << b)).size();
+         parts += (long long)L.decompose(Specifiers((std::uintptr_t(1) << b) | std::uintptr_t(rng.next()))).size() + (long long)L.decompose(Qualifiers((std::uintptr_t(1) << b) | std::uintptr_t(rng.next() & 0xff))).size();
+      }
+      parts += (long long)L.decompose(Specifiers(~std::uintptr_t(0))).size() + (long long)L.decompose(Qualifiers(~std::uintptr_t(0))).size();
+      T.decomposed_parts += parts; T.extension_sets += 4 * 64 + 2;
+      auto* holder = lex.make_namespace(*unit.global_region());
+      for (int k = 0; k < 6; ++k) {
+         const std::uintptr_t sbits = (std::uintptr_t(1) << (18 + rng.below(46))) | std::uintptr_t(rng.below(1 << 18)), qbits = (std::uintptr_t(1) << (3 + rng.below(61))) | std::uintptr_t(rng.below(8));
+         auto* v = holder->body.scope.make_var(lex.get_identifier(widen("ext" + std::to_string(k))), lex.get_qualified(Qualifiers(qbits), k % 2 ? L.int_type() : static_cast<const Type&>(lex.get_pointer(L.char_type()))));
+         v->specifiers(Specifiers(sbits));
+         Printer pp(L, os); try { pp << xpr_decl(*v, true); } catch (const std::logic_error&) { }
+         try { pp << xpr_type(v->type()); } catch (const std::logic_error&) { }
+         T.extension_sets += 2;
+      }
    }
    mirror();
    // what every unit of this life is named by (nodes the unit itself fetched from the Lexicon when it was built)
@@ -274,9 +294,9 @@ static void body(Ctx& C)
       if (C.total_viols >= 12 && i >= 3) { C.count("stopped_early_after_repeated_violations"); break; }
    }
    C.count("factory_calls", T.factory_calls); C.count("strings_interned", T.strings); C.count("string_bytes", T.string_bytes); C.count("string_pools_at_destruction", T.pools);
-   C.count("printed_bytes", T.printed_bytes); C.count("extra_units_and_module_units", T.units); C.count("nested_regions", T.regions); C.count("program_steps", T.steps); C.count("strings_at_allocator_threshold_lengths", T.threshold); C.count("lives_filling_string_pools_exactly", T.exact_fills); C.count("unit_names_read", T.unit_names_read); C.count("mirror_requests_at_both_ends_of_a_life", T.mirror_requests); C.count("requests_refused_during_a_life", T.refused);
+   C.count("printed_bytes", T.printed_bytes); C.count("extra_units_and_module_units", T.units); C.count("nested_regions", T.regions); C.count("program_steps", T.steps); C.count("strings_at_allocator_threshold_lengths", T.threshold); C.count("lives_filling_string_pools_exactly", T.exact_fills); C.count("unit_names_read", T.unit_names_read); C.count("mirror_requests_at_both_ends_of_a_life", T.mirror_requests); C.count("requests_refused_during_a_life", T.refused); C.count("specifier_and_qualifier_sets_with_extension_coordinates_decomposed_or_printed", T.extension_sets); C.count("names_obtained_by_decomposition", T.decomposed_parts);
    for (auto k : { "lexicon_lives", "factory_calls", "strings_interned", "string_pools_at_destruction", "printed_bytes", "extra_units_and_module_units", "nested_regions", "program_steps" }) C.need(k);
-   C.need("overlapping_lexicon_pairs"); C.need("lives_filling_string_pools_exactly"); C.need("unit_names_read"); C.need("mirror_requests_at_both_ends_of_a_life"); C.need("requests_refused_during_a_life");
+   C.need("overlapping_lexicon_pairs"); C.need("lives_filling_string_pools_exactly"); C.need("unit_names_read"); C.need("mirror_requests_at_both_ends_of_a_life"); C.need("requests_refused_during_a_life"); C.need("specifier_and_qualifier_sets_with_extension_coordinates_decomposed_or_printed");
    if (!valgrind_mode) { C.need("byte_accounting_checks"); C.need("lsan_checks"); }
 }
 
